@@ -1,3 +1,18 @@
+//! Project-level checks (C08, C09, C11, C13-C16, C24-C27) over G-PROJECT.
+mod c08;
+mod c14;
+mod c16;
+mod cases;
+mod probe;
+
 fn main() {
-    vcore::inconclusive("proj: not built yet");
+    let args = vcore::parse_args();
+    match args.property.as_str() {
+        "probe" => probe::run(&args),
+        "shrink" => probe::shrink(&args),
+        "C08" => c08::run(&args),
+        "C14" => c14::run(&args),
+        "C16" => c16::run(&args),
+        other => vcore::inconclusive(&format!("proj: {other} not built yet")),
+    }
 }
